@@ -1,0 +1,10 @@
+//go:build verif
+
+package publicip
+
+// VerifSetIPCheckers replaces the provider list and returns the previous one.
+func VerifSetIPCheckers(urls []string) []string {
+	old := ipCheckers
+	ipCheckers = urls
+	return old
+}
